@@ -56,6 +56,9 @@ PINS = {
             ('codegen.py', None, 'codegen_outertan'), ('codegen.py', None, 'codegen_sqrt'), ('codegen.py', None, 'codegen_normsq'),
             ('multivector.py', 'MultiVector', '__pow__'), ('multivector.py', 'MultiVector', 'exp'), ('multivector.py', 'MultiVector', 'norm'),
             ('multivector.py', 'MultiVector', 'normalized'), ('multivector.py', 'MultiVector', '__bool__')],
+    'C16': [('multivector.py', 'MultiVector', m) for m in ('__getitem__', '__setitem__', 'shape', 'itermv', 'keys', 'values', 'items', 'map')]
+           + [('operator_dict.py', 'OperatorDict', '__call__'), ('operator_dict.py', 'OperatorDict', '_call_binary'),
+              ('operator_dict.py', 'UnaryOperatorDict', '__call__')],
     'C17': POLY,
     'C18': [('matrixreps.py', None, 'matrix_rep'), ('matrixreps.py', None, 'ordering_matrix'), ('algebra.py', 'Algebra', 'matrix_basis'), ('multivector.py', 'MultiVector', 'asmatrix'),
             ('multivector.py', 'MultiVector', 'frommatrix')],
